@@ -14,7 +14,9 @@ from contracts.C05_polars_components import PolarsRunSchemaComponentChecks
 from contracts.C03_polars_parsers import PolarsAddMissingColumns, PolarsSetDefault
 from contracts.C02_polars_column_collect import PolarsColumnCollect
 from contracts.C10_polars_failure_cases import PolarsCoerceFailureCases  # the mask of a failed coercion has one row per data row (else the report itself raises)
+from contracts.C08_polars_column_checks import IsFloatDtype, PolarsCheckNullable  # is_nan only on float columns (else polars raises)
+from contracts.C02_polars_report import PolarsFailureCasesReport  # building the lazy report does not raise
 from contracts.C05_dtype_receivers import CONTRACTS as DTYPE_CHECKS  # exit.only_documented_exceptions of every dtype `check` override
 
 CONTRACTS = [ContainerValidate, SeriesSchemaValidate, ArrayValidate, IndexValidate, ColumnValidateRestoresSchema, RunSchemaComponentChecks,
-             ConfigContext, PolarsSubsample, PandasDropInvalidRows, PolarsDropInvalidRows, PolarsContainerValidate, PolarsColumnValidate, MultiIndexValidate, PolarsRunSchemaComponentChecks, PolarsAddMissingColumns, PolarsSetDefault, PolarsColumnCollect, PolarsCoerceFailureCases] + list(POLARS_API) + list(DTYPE_CHECKS)
+             ConfigContext, PolarsSubsample, PandasDropInvalidRows, PolarsDropInvalidRows, PolarsContainerValidate, PolarsColumnValidate, MultiIndexValidate, PolarsRunSchemaComponentChecks, PolarsAddMissingColumns, PolarsSetDefault, PolarsColumnCollect, PolarsCoerceFailureCases, IsFloatDtype, PolarsCheckNullable, PolarsFailureCasesReport] + list(POLARS_API) + list(DTYPE_CHECKS)
